@@ -10,9 +10,11 @@ PROPERTY = PropertySpec(
     explanation='Representation invariant wf(container) (every indexed name bound to a 1-D array with one element per period) proved to be preserved, with the '
                 'whole view specified (every other binding identical) and the raising paths proved to change nothing, for add_variable, __setattr__ on a '
                 'variable (all value shapes: scalar, str, arbitrary sequence with the deliberately weak np.array contract, ndarray) and '
-                'ModelInterface.add_variable. The remaining mutators (item/label stores: C10 contracts; values setter, replace_values, strict guard) '
-                'and the NumPy assumptions are exercised by the bounded histories on the real classes.',
-    level_text='proof obligations for the creating / replacing mutators (all inputs, opaque array algebra) + bounded histories for the rest; mixed, hence other',
+                'ModelInterface.add_variable; the invariant includes ownership (every series owns its memory). Further contracts: the attribute branch of __setattr__ (what strict blocks and what it '
+                'leaves assignable), add_attribute, the `values` setter of containers and models (shape check before anything is assigned; each variable assigned once, in order, through the checked '
+                'assignment), replace_values, `size`, the `values` getter (declaration order), __setitem__ for unknown names, ModelInterface.__init__ (bookkeeping first, one variable per name with its keyword or the default). '
+                'Item/label stores are the C10 contracts; the NumPy assumptions are exercised by the bounded histories on the real classes.',
+    level_text='proof obligations for every public mutator named in the statement (all inputs inside each enumerated shape, opaque array algebra) + bounded histories as conformance of the NumPy assumptions and for sequences of operations; mixed, hence other',
     level_note='bound: histories of length <= 2 exhaustive over a 60-operation alphabet, random to length 6',
     technique='contract-based deductive verification of the representation invariant (pyvc + z3); bounded histories as conformance and stand-in',
     design_ref='DESIGN.md section 10 / C09',
